@@ -49,7 +49,7 @@ func moRun(c *core.Ctx, bin, dir string, choices []int, extraEnv []string, args 
 	tf := filepath.Join(c.Scratch, fmt.Sprintf("trace-%d", moSeq.n))
 	moSeq.Unlock()
 	env := append([]string{"VERIF_MO_CHOICES=" + maporder.ChoicesString(choices), "VERIF_MO_TRACE=" + tf}, extraEnv...)
-	r := core.Run(dir, core.UserEnv(env...), 120*time.Second, "", bin, args...)
+	r := core.Run(dir, core.UserEnv(env...), 600*time.Second, "", bin, args...)
 	tr := maporder.ReadTrace(tf)
 	os.Remove(tf)
 	return moObs{r, tr}
